@@ -183,6 +183,9 @@ def _rows(variant):
             ("s3", "p2", (("b", 1.0), ("c", 1.0)), 0.37, False),
             ("s3", "p2", (("c", 1.0), ("b", 1.0)), 0.38, False),
         ]
+    elif variant == 6:
+        # degenerate: one sample, one treatment (many operations refuse it: that is an answer too, and must leave nothing behind)
+        rows = [("s0", "p0", (("a", 1.0), ("a", 1.0)), 0.3, False), ("s0", "p0", (("a", 1.0), (ctl, 0.0)), 0.4, False)]
     elif variant == 5:
         # large plates (8, 8 and 6 wells, one of them observed): operations that handle MANY wells of one plate at once
         drugs = ["a", "b", "c", "d", "e"]
@@ -312,6 +315,33 @@ def op_holdout(which):
         a, b = f(screen, 0.5, rng)
         return (_snap(a), _snap(b))
     return run
+
+
+def op_mvn_precision(seed, variant, tmp):
+    """The multivariate-normal helper every Gibbs block draws through, with the generator it is given.  variant 0: a
+    well-conditioned precision; 1: an exactly singular one; 2: one whose prior term was absorbed by float32 rounding (singular
+    only in float32).  A refusal (LinAlgError) is an answer like any other: the same for the same inputs."""
+    from batchie.fast_mvn import sample_mvn_from_precision
+
+    if variant == 0:
+        Q = np.array([[2.0, 0.3, 0.1], [0.3, 1.5, 0.2], [0.1, 0.2, 1.1]])
+        part = np.array([0.5, -0.25, 1.0])
+    elif variant == 1:
+        Q = np.array([[1.0, 1.0], [1.0, 1.0]])
+        part = np.array([1.0, 1.0])
+    else:
+        X = np.full((1, 2), 2.0 ** 20, dtype=np.float32)
+        Q = X.T @ X
+        Q[np.diag_indices(2)] += np.float32(100.0)
+        part = (X.T @ np.array([1.0], dtype=np.float32)).astype(np.float32)
+    out = []
+    rng = np.random.default_rng(seed)
+    for kw in ({"mu_part": part}, {"mu": part}, {}):
+        try:
+            out.append(np.asarray(sample_mvn_from_precision(Q, rng=rng, **kw), dtype=float).tobytes())
+        except np.linalg.LinAlgError as exc:
+            out.append("LinAlgError:" + str(exc))
+    return tuple(out) + (rng.bit_generator.state["state"]["state"],)
 
 
 def op_random_scorer(seed, variant, tmp):
@@ -516,6 +546,7 @@ def operations(tier):
     ops["sparse_cover:late-sample-covered"] = op_sparse_cover_late
     ops["holdout:plate"] = op_holdout("create_plate_balanced_holdout_set_among_masked_plates")
     ops["holdout:random"] = op_holdout("create_random_holdout")
+    ops["mvn:precision"] = op_mvn_precision
     ops["score:random"] = op_random_scorer
     ops["score:dbal-subsample"] = op_dbal_subsample
     ops["select:k-per-sample"] = op_select_policy
@@ -547,7 +578,7 @@ def operations(tier):
 # identical inputs and an identically seeded generator must give the output a fresh
 # object gives.  Histories: every sequence of <= 3 calls over a 3-letter alphabet of
 # (seed, input) pairs; the last call is compared with a fresh object.
-REUSE_ALPHABET = [(0, 0), (1, 0), (0, 1)]
+REUSE_ALPHABET = [(0, 0), (1, 0), (0, 1), (0, 6)]  # (seed, input); input 6 is the degenerate screen most operations refuse
 
 
 def _call_generator(obj, seed, variant):
@@ -590,6 +621,8 @@ def reuse_operations():
         "reuse:RandomScorer": (RandomScorer, _call_scorer),
         "reuse:SizeScorer": (SizeScorer, _call_scorer),
         "reuse:PairwisePlateGenerator(1,0)": (lambda: R.PairwisePlateGenerator(subset_size=1, anchor_size=0), _call_generator),
+        "reuse:PairwisePlateGenerator(2,0)": (lambda: R.PairwisePlateGenerator(subset_size=2, anchor_size=0), _call_generator),
+        "reuse:PairwisePlateGenerator(2,1)": (lambda: R.PairwisePlateGenerator(subset_size=2, anchor_size=1), _call_generator),
         "reuse:PlatePermutationPlateGenerator": (lambda: R.PlatePermutationPlateGenerator(), _call_generator),
         "reuse:SampleSegregatingPermutationPlateGenerator(2)": (lambda: R.SampleSegregatingPermutationPlateGenerator(max_plate_size=2), _call_generator),
         "reuse:FixedSizeSmoother(1)": (lambda: R.FixedSizeSmoother(plate_size=1), _call_smoother),
@@ -606,7 +639,18 @@ def reuse_operations():
 def run_reuse(item, col, tier):
     import itertools
 
-    make, call = reuse_operations()[item["op"]]
+    make, call0 = reuse_operations()[item["op"]]
+
+    def call(obj, seed, variant):
+        # a refusal is an outcome like any other (and the object is used again afterwards)
+        try:
+            return call0(obj, seed, variant)
+        except Exception as exc:  # noqa: BLE001
+            from ..core import exception_origin_in_repo
+            if not exception_origin_in_repo(exc):
+                raise
+            return "raised:" + type(exc).__name__
+
     fresh = {}
     for a_ in REUSE_ALPHABET:
         with Tripwire() as tw:
@@ -701,6 +745,7 @@ def plan(tier, seed):
     for name in operations(tier):
         if name.startswith(("holdout:", "gen:", "smooth:", "cli:prepare_retrospective_simulation")) and "zero-plates" not in name and "again" not in name:
             items.append({"op": name, "variant": 5})
+    items.append({"op": "mvn:precision", "variant": 2})
     for name in reuse_operations():
         items.append({"op": name, "reuse": True})
     items.append({"op": "cross-process", "cross": True, "hashseeds": [1, 3, 5] if tier == "quick" else [1, 2, 3, 4, 5, 6]})
